@@ -1218,7 +1218,12 @@ class BareServer():
                     logger.debug("Headers/Body:\n%s\n%s\n",
                                 steward.requestant.headers,
                                 steward.requestant.body)
-                    steward.respond()
+                    try:
+                        steward.respond()
+                    except Exception as ex:  # responder failed on this request
+                        logger.error("Error responding to request on %s.\n%s\n", ca, ex)
+                        self.closeConnection(ca)
+                        continue
 
             if steward.waited:
                 steward.pour()
